@@ -120,8 +120,12 @@ CLAIMS.update({
  'C12': ("proof", "Proof, partial. Proved about the lexer model instantiated with the tables and Unicode classes regenerated from the running "
          "Python: integer literals for every digit string, base and underscore placement; keyword/flavour classification of the whole "
          "keyword table; longest symbol match independent of the order among equal-length symbols (the source's set-order dependence); "
-         "escape table. The model is tied by the lex suite (tokens, spans, error positions). Layout independence and span exactness are "
-         "validated by re-layout, not proved.", "machine-checked proof (Lean 4) about a hand-written model + token-level correspondence", "6 C12"),
+         "escape table; layout independence and span exactness (lex_of_layout, layout_independence, span_exact: for every source whose lines "
+         "are white-space-separated self-delimiting token texts with optional trailing comments and any line breaks, lex returns exactly "
+         "those tokens in order, each span covering exactly its text, by induction over lines and tokens; every symbol and every "
+         "non-keyword identifier is shown to be such a text). The model is tied by the lex suite (tokens, spans, error positions); an "
+         "independent integer-literal and escape oracle and the re-layout searcher run on the real lexer. Not proved: number, string and "
+         "character literals as layout pieces, and tokens adjacent without white space (re-layout searcher only).", "machine-checked proof (Lean 4) about a hand-written model + token-level correspondence", "6 C12"),
  'C16': ("proof", "Proof of (a) and (c): for every well-formed block, exit modes lacking NONE imply the block cannot complete normally, and "
          "whatever follows such a prefix is unreachable - against an abstract control-flow semantics in which every condition may go either "
          "way (induction over derivations, all programs). The analysis model is tied to blocks.py by recomputing the mode of every block "
